@@ -818,10 +818,14 @@ func evalBinaryArrayExpr(op parser.Operator, left *arrayVal, right value) (value
 		if repetitions < 0 {
 			return nil, fmt.Errorf("%w: negative count: %s", ErrBadRepetition, right)
 		}
-		if n := len(*left.Elements); n > 0 && repetitions > math.MaxInt32/n {
+		n := len(*left.Elements)
+		if n == 0 {
+			return &arrayVal{Elements: &[]value{}}, nil // nothing to repeat, whatever the count
+		}
+		if repetitions > math.MaxInt32/n {
 			return nil, fmt.Errorf("%w: result too large: %s", ErrBadRepetition, right)
 		}
-		newElements := make([]value, 0, len(*left.Elements)*repetitions)
+		newElements := make([]value, 0, n*repetitions)
 		for range repetitions {
 			newElements = append(newElements, *(deepCopy(left).(*arrayVal).Elements)...)
 		}
